@@ -2,6 +2,16 @@ import Cirbo.Proofs.TopSort
 /-! `WFU c` makes both Kahn graphs of `c` well formed; consequences for `Circuit.topSort`. -/
 namespace Cirbo
 
+/-- exactly what the Kahn proof needs from a circuit -/
+structure WFG (c : Circuit) : Prop where
+  nodup : c.labels.Nodup
+  closed : ∀ g ∈ c.gates, ∀ o ∈ g.ops, o ∈ c.labels
+  rank : ∃ r : Label → Nat, ∀ g ∈ c.gates, ∀ o ∈ g.ops, r o < r g.label
+  usersL : ∀ l s, s ∈ c.usersOf l → s ∈ c.labels
+  usersC : ∀ l, ∀ g ∈ c.gates, (c.usersOf l).count g.label = g.ops.count l
+
+theorem WFU.toWFG {c : Circuit} (h : WFU c) : WFG c := ⟨h.nodup, h.closed, h.rank, h.usersL, h.usersC⟩
+
 theorem find_label {c : Circuit} (h : c.labels.Nodup) {g : Gate} (hg : g ∈ c.gates) :
     c.find? g.label = some g := by
   unfold Circuit.find?
@@ -37,7 +47,7 @@ theorem opsOf_not_mem {c : Circuit} {l : Label} (hl : l ∉ c.labels) : c.opsOf 
 theorem mem_labels_of_mem {c : Circuit} {g : Gate} (hg : g ∈ c.gates) : g.label ∈ c.labels := by
   simpa [Circuit.labels] using ⟨g, hg, rfl⟩
 
-theorem graphInv_wf {c : Circuit} (h : WFU c) : GWF c.graphInv := by
+theorem graphInv_wf {c : Circuit} (h : WFG c) : GWF c.graphInv := by
   refine ⟨h.nodup, ?_, ?_, ?_, ?_⟩
   · intro l hl p hp
     obtain ⟨g, hg, rfl⟩ := gate_of_label hl
@@ -65,7 +75,7 @@ theorem le_sum_of_mem (r : Label → Nat) : ∀ (ls : List Label) (x : Label), x
     · omega
     · have := le_sum_of_mem r ys x h; omega
 
-theorem graphDir_wf {c : Circuit} (h : WFU c) : GWF c.graphDir := by
+theorem graphDir_wf {c : Circuit} (h : WFG c) : GWF c.graphDir := by
   refine ⟨h.nodup, ?_, ?_, ?_, ?_⟩
   · intro l _ p hp; exact h.usersL l p hp
   · intro l s hs
@@ -106,7 +116,7 @@ theorem kahn_nil_of_queue_nil (G : Graph) (hq : (initState G).queue = []) : kahn
 /-- **C20 (topological iteration)**, direction inputs→outputs: on a well-formed circuit
 `top_sort(inverse=True)` does not raise and yields every gate exactly once, each after all of
 its operands. -/
-theorem topSort_inv_spec {c : Circuit} (h : WFU c) :
+theorem topSort_inv_spec {c : Circuit} (h : WFG c) :
     ∃ order, c.topSort true = .ok order ∧ order.Perm c.labels ∧
       ∀ pre l post, order = pre ++ l :: post → ∀ g ∈ c.gates, g.label = l → ∀ o ∈ g.ops, o ∈ pre := by
   have hG := graphInv_wf h
@@ -138,7 +148,7 @@ theorem topSort_inv_spec {c : Circuit} (h : WFU c) :
 
 /-- direction outputs→inputs: every gate exactly once, each after all of its users (so before
 all of its operands). -/
-theorem topSort_dir_spec {c : Circuit} (h : WFU c) :
+theorem topSort_dir_spec {c : Circuit} (h : WFG c) :
     ∃ order, c.topSort false = .ok order ∧ order.Perm c.labels ∧
       ∀ pre l post, order = pre ++ l :: post → ∀ u ∈ c.usersOf l, u ∈ pre := by
   have hG := graphDir_wf h
